@@ -149,7 +149,7 @@ type DecV struct {
 
 // TimeV: time.Time as nanoseconds since Unix epoch (Int sort). Zero time.Time is a distinguished constant.
 type TimeV struct {
-	T *Term // Int sort
+	T *Term // BV128: nanoseconds since the Unix epoch
 }
 
 // OpaqueV: a value of a dependency type we do not model structurally.
@@ -210,7 +210,7 @@ func opaqueZero(t types.Type) (Value, bool) {
 	case "math/big.Int":
 		return BigV{T: IntI(0)}, true
 	case "time.Time":
-		return TimeV{T: IntC(zeroTimeNanos)}, true
+		return TimeV{T: BVC(128, zeroTimeNanos)}, true
 	case "github.com/cosmos/cosmos-sdk/types.Context":
 		return &CtxV{}, true
 	case "sync.Mutex", "sync.RWMutex", "sync.Once", "sync.WaitGroup":
